@@ -317,25 +317,39 @@ static bool run_sliding(runtime_cfg const& cfg, int reps, unsigned os_share)
     {
         std::int64_t maxd = 1 + (std::int64_t) r.below(8);
         std::int64_t N = 20 + (std::int64_t) r.below(200);
-        auto sem = std::make_unique<pika::sliding_semaphore>(maxd, 0);
-        std::atomic<std::int64_t> lower_shadow{0};    // >= real lower limit at all times (raised before signal)
-        std::atomic<std::int64_t> passed{0};
+        // per-round state is shared-owned: a signal handed to an OS thread may still be on its way when the round's last
+        // waiter has passed (later signals overtake it); it must then act on ITS round's semaphore and shadow, not on the
+        // next round's objects at the same stack address
+        struct round_state
+        {
+            pika::sliding_semaphore sem;
+            std::atomic<std::int64_t> lower_shadow{0};    // >= real lower limit at all times (raised before signal)
+            std::atomic<std::int64_t> passed{0};
+            round_state(std::int64_t maxd)
+              : sem(maxd, 0)
+            {
+            }
+        };
+        auto st = std::make_shared<round_state>(maxd);
+        auto* sem = &st->sem;
+        auto& passed = st->passed;
+        auto& lower_shadow = st->lower_shadow;
         std::uint64_t expect = g_progress.load() + N;
         bool os_sig = r.below(100) < os_share;
         // waiters: one task per index u waits for its turn, then (as the work completes) signals u
         for (std::int64_t u = 1; u <= N; ++u)
         {
-            ex::execute(ex::thread_pool_scheduler{}, [&, u, os_sig] {
-                sem->wait(u);
-                std::int64_t lo = lower_shadow.load();
+            ex::execute(ex::thread_pool_scheduler{}, [st, u, os_sig, maxd] {
+                st->sem.wait(u);
+                std::int64_t lo = st->lower_shadow.load();
                 if (u - lo > maxd)
                     vio("sliding:window", sf("wait(%ld) returned while the signalled lower bound is at most %ld and max_difference is %ld", (long) u, (long) lo, (long) maxd));
-                passed++;
+                st->passed++;
                 if ((u & 3) == 0) pika::this_thread::yield();
-                auto sig = [&, u] {
-                    std::int64_t cur = lower_shadow.load();
-                    while (cur < u && !lower_shadow.compare_exchange_weak(cur, u)) {}
-                    sem->signal(u);
+                auto sig = [st, u] {
+                    std::int64_t cur = st->lower_shadow.load();
+                    while (cur < u && !st->lower_shadow.compare_exchange_weak(cur, u)) {}
+                    st->sem.signal(u);
                 };
                 if (os_sig && (u % 5) == 0) os_submit(sig);
                 else sig();
@@ -348,7 +362,7 @@ static bool run_sliding(runtime_cfg const& cfg, int reps, unsigned os_share)
             vio(std::string("sliding:blocked-waiter") + (wr == wait_result::deadlock ? ":deadlock" : ":stalled"),
                 sf("%ld of %ld waiters passed with max_difference %ld and signalled lower bound %ld; cfg=%s %s", (long) passed.load(), (long) N, (long) maxd,
                     (long) lower_shadow.load(), cfg.describe().c_str(), pool_state().c_str()));
-            sem.release();
+            new std::shared_ptr<round_state>(st);    // blocked waiters still reference it: never freed
             return false;
         }
         if (!sem->try_wait(N + maxd)) vio("sliding:try_wait", "try_wait inside the window returned false");
